@@ -382,7 +382,9 @@ def s3(chk, repo, mod):
     # loop target: (lineno, line) from enumerate(lines)
     it = loop.iter
     enum_ok = isinstance(it, ast.Call) and isinstance(it.func, ast.Name) and it.func.id == "enumerate" and isinstance(loop.target, ast.Tuple) and len(loop.target.elts) == 2
-    chk.require(enum_ok, "C14-S3", where, "the loop numbers the lines with enumerate", "the line loop no longer numbers lines with enumerate", key="loop:enumerate")
+    if not enum_ok:
+        raise AnalysisError(f"{where}: the line loop does not number the lines with enumerate(...) into (number, line); how errors are numbered is decided by the corpus evaluation (C14-S9)")
+    chk.ok("C14-S3", where, "the loop numbers the lines with enumerate")
     lineno_var = loop.target.elts[0].id if enum_ok and isinstance(loop.target.elts[0], ast.Name) else None
     line_var = loop.target.elts[1].id if enum_ok and isinstance(loop.target.elts[1], ast.Name) else None
     # exits from the loop body
@@ -395,8 +397,7 @@ def s3(chk, repo, mod):
     chk.require(not exits, "C14-S3", where, "no break/return/raise inside the line loop: every line is examined",
                 f"the line loop can be left early ({[short(e, 30) for e in exits]}): later malformed lines are not reported", key="loop:early-exit")
     if len(tries) != 1:
-        chk.fail("C14-S3", where, f"expected one try statement in the loop body, found {len(tries)}", key="loop:try")
-        return
+        raise AnalysisError(f"{where}: {len(tries)} try statements in the loop body (the recognised form has one); decided by the corpus evaluation (C14-S9)")
     tr = tries[0]
     call_in_try = any(isinstance(c, ast.Call) and isinstance(c.func, ast.Name) and c.func.id == "parse_line" and c.args and norm(c.args[0]) == line_var for st in tr.body for c in ast.walk(st))
     handler = None
@@ -417,8 +418,9 @@ def s3(chk, repo, mod):
                     if isinstance(a, ast.Tuple) and {norm(x) for x in a.elts} == {lineno_var, handler.name}:
                         stored = True
                         store_name = norm(n.func.value)
-    chk.require(call_in_try and good_h and stored, "C14-S3", where, f"ValueError of parse_line(line) is recorded as {store_name}[{lineno_var}]",
-                "a malformed line is not recorded with its own line number by the handler", key="loop:collect", sample={"store": store_name, "key": lineno_var})
+    if not (call_in_try and good_h and stored):
+        raise AnalysisError(f"{where}: the handler does not record the error as <errors>[<line number>] = e / append((number, e)); which lines the error group names is decided by the corpus evaluation (C14-S9)")
+    chk.ok("C14-S3", where, f"ValueError of parse_line(line) is recorded as {store_name}[{lineno_var}]", sample={"store": store_name, "key": lineno_var})
     # after the loop: if errors: raise ExceptionGroup(msg, [with_lineno(error, lineno) for lineno, error in errors.items()])
     after = [n for n in ps.own_nodes() if isinstance(n, ast.Raise) and n.lineno > loop.end_lineno]
     flow = Flow(ps)
@@ -442,8 +444,9 @@ def s3(chk, repo, mod):
                 detail = f"guarded={guarded} over_all={over_all} uses lineno+error={uses_both}"
             else:
                 detail = f"sub-exceptions are {short(lst, 60)}"
-    chk.require(ok_raise, "C14-S3", where, "one ExceptionGroup is raised after the loop from every recorded (line number, error) pair",
-                f"the error group does not carry every recorded error with its line number: {detail}", key="raise:group")
+    if not ok_raise:
+        raise AnalysisError(f"{where}: the raise after the loop is not in the recognised form ({detail}); which lines the error group names is decided by the corpus evaluation (C14-S9)")
+    chk.ok("C14-S3", where, "one ExceptionGroup is raised after the loop from every recorded (line number, error) pair")
     # with_lineno puts the line number into the message
     wl = mod.funcs.get("with_lineno")
     ok_wl = wl is not None and any(isinstance(n, ast.JoinedStr) and any(isinstance(v, ast.FormattedValue) and norm(v.value) == wl.positional_params[1] for v in n.values) for n in ast.walk(wl.node)) \
